@@ -263,6 +263,10 @@ def sparse_storage_forms(rng, X: np.ndarray):
     yield "lil", sparse.lil_matrix(X)
     yield "dok", sparse.dok_matrix(X)
     yield "bsr", sparse.bsr_matrix(X)
+    # the newer sparse ARRAY containers: same data, indices and format - but `*` is the element-wise product there and `@` the matrix product
+    for lab_, cls_ in (("csr_array", "csr_array"), ("csc_array", "csc_array"), ("coo_array", "coo_array")):
+        if hasattr(sparse, cls_):
+            yield lab_, getattr(sparse, cls_)(X)
     # DIA with junk in the padding slots
     d = sparse.dia_matrix(X)
     if d.data.size:
